@@ -177,7 +177,12 @@ func (s *Store) Delete(ctx context.Context, target ocispec.Descriptor) error {
 			if err != nil {
 				return err
 			}
-			deleteQueue = append(deleteQueue, referrers...)
+			for _, referrer := range referrers {
+				// do not delete existing tagged manifests
+				if !s.isTagged(referrer) {
+					deleteQueue = append(deleteQueue, referrer)
+				}
+			}
 		}
 
 		// delete the head of queue
